@@ -1,101 +1,64 @@
 import FV.Props.Catalog
-import FV.Ops
-/-! # C11 / C13 (FlatVec part) — `FlatVec` on bytes refines a capacity-bounded list (first instalment: push, pop)
+import FV.VecRefine
+/-! # C11 — FlatVec / FlatString = capacity-bounded Vec / String under every history
 
-`vecOp` is the operation as `stavec::GenericVec` performs it on the mapped bytes (the model the correspondence check
-compares with the real code on every step of every generated history). `elems` is the abstraction function. -/
+`vecOp` is the operation as `stavec::GenericVec` performs it on the mapped bytes (the model the correspondence check compares
+with the real code byte for byte on every step of every generated history); `elemsOf` is the abstraction function;
+`specVec` is an ordinary `Vec` whose growth is refused beyond the fixed capacity (with `Vec`'s panics for out-of-range
+`remove` / `swap_remove` / `resize` / index writes). The invariant `VInv` is re-established by every step, so the statement
+lifts to every finite history by induction (`C11_history`). `stavec` is an external crate: it is *modelled* here. -/
 namespace FV.Props
 open FV
 
-/-- abstraction: the elements of the vector as byte chunks -/
-def elems (g : VecGeo) (bs : Bytes) (len : Nat) : List Bytes := (List.range len).map (g.elemAt bs)
+/-- **C11 (one step).** For every element size, length type, buffer and state satisfying the invariant, and every operation whose
+arguments are element images: the operation never faults, keeps the buffer length, returns what the bounded `Vec` returns, leaves
+exactly the bounded `Vec`'s sequence, and re-establishes the invariant — in particular the capacity (a function of the buffer length
+only) never changes and `len ≤ capacity`. -/
+theorem C11_vec_step_refines (g : VecGeo) (bs : Bytes) (len : Nat) (hI : VInv g bs len) (op : Op) (hop : OpWF g op) :
+    ∃ o, vecOp g bs len op = .ok o ∧ o.bytes.length = bs.length ∧
+      ∃ len', VInv g o.bytes len' ∧ (o.ret, elemsOf g o.bytes len') = specVec g.cap (elemsOf g bs len) op :=
+  vecOp_refines g bs len hI op hop
 
-def cfgOf (g : VecGeo) : VecCfg := ⟨g.S, g.dOff, g.l⟩
+/-- the abstract machine run over a history -/
+def specRun (cap : Nat) : List Bytes → List Op → List Bytes
+  | xs, [] => xs
+  | xs, op :: ops => specRun cap (specVec cap xs op).2 ops
+/-- the byte-level machine run over a history (`none` on a fault) -/
+def vecRun (g : VecGeo) : Bytes → Nat → List Op → Option (Bytes × Nat)
+  | bs, len, [] => some (bs, len)
+  | bs, len, op :: ops =>
+    match vecOp g bs len op with
+    | .ok o => vecRun g o.bytes (g.cfg.decLen o.bytes) ops
+    | _ => none
 
-theorem elems_eq (g : VecGeo) (bs : Bytes) : elems g bs ((cfgOf g).decLen bs) = (cfgOf g).elems bs := rfl
+/-- **C11 (every history).** After any finite sequence of operations the mapped vector holds exactly what the bounded `Vec` holds,
+no step faults, and the invariant (hence the fixed capacity) holds at the end. -/
+theorem C11_history (g : VecGeo) : ∀ (ops : List Op) (bs : Bytes) (len : Nat), VInv g bs len → (∀ op ∈ ops, OpWF g op) →
+    ∃ bs' len', vecRun g bs len ops = some (bs', len') ∧ VInv g bs' len' ∧ bs'.length = bs.length ∧
+      elemsOf g bs' len' = specRun g.cap (elemsOf g bs len) ops := by
+  intro ops
+  induction ops with
+  | nil => intro bs len hI _; exact ⟨bs, len, rfl, hI, rfl, rfl⟩
+  | cons op ops ih =>
+    intro bs len hI hops
+    obtain ⟨o, ho, hl, len', hI', hspec⟩ := vecOp_refines g bs len hI op (hops op (by simp))
+    have hdec : g.cfg.decLen o.bytes = len' := hI'.dec
+    obtain ⟨bs', len'', hrun, hI'', hl'', hel⟩ := ih o.bytes len' hI' (fun x hx => hops x (by simp [hx]))
+    refine ⟨bs', len'', by simp [vecRun, ho, hdec, hrun], hI'', by omega, ?_⟩
+    rw [hel]
+    simp only [specRun]
+    have : (specVec g.cap (elemsOf g bs len) op).2 = elemsOf g o.bytes len' := by rw [← hspec]
+    rw [this]
 
-@[simp] theorem cfgOf_S (g : VecGeo) : (cfgOf g).S = g.S := rfl
-@[simp] theorem cfgOf_dOff (g : VecGeo) : (cfgOf g).dOff = g.dOff := rfl
-@[simp] theorem cfgOf_encLen (g : VecGeo) (n : Nat) : (cfgOf g).encLen n = encLenTy g.l n := rfl
-
-theorem vecOp_push_eq (g : VecGeo) (bs x : Bytes) (hx : x.length = g.S) :
-    vecOp g bs ((cfgOf g).decLen bs) (.push x) =
-      ((cfgOf g).push g.cap bs x).bind fun (r, ok) => .ok ⟨if ok then .ok else .full, r⟩ := by
-  simp only [vecOp, VecCfg.push]
-  by_cases h : (cfgOf g).decLen bs = g.cap
-  · simp [h]
-  · simp only [h, if_false, VecGeo.appendAll, vecWriteElems, hx, if_true, VecGeo.setLen, cfgOf_S, cfgOf_dOff, cfgOf_encLen,
-      List.length_cons, List.length_nil, Res.bind_eq, Res.pure_eq, Nat.zero_add]
-    cases h1 : writeAt bs (g.dOff + (cfgOf g).decLen bs * g.S) x with
-    | ok b1 =>
-      simp only [Res.bind_ok]
-      cases h2 : writeAt b1 0 (encLenTy g.l ((cfgOf g).decLen bs + 1)) <;> simp
-    | err e => simp
-    | fault f => simp
-
-/-- **C11 (push) / C13 (FlatVec).** `push` on a valid vector (length within capacity, capacity within the buffer and within
-the length type): never faults and keeps the buffer length; when the vector is full it is refused and *nothing at all* changes
-(C13); otherwise the abstract sequence gets the item appended and the length grows by one. The capacity `g.cap` is a function
-of the buffer length only, so it never changes. -/
-theorem C11_push_refines (g : VecGeo) (bs x : Bytes) (hd : g.l.size ≤ g.dOff) (hx : x.length = g.S)
-    (hcap : g.cap < 256 ^ g.l.size) (hlen : (cfgOf g).decLen bs ≤ g.cap) (hroom : g.dOff + g.cap * g.S ≤ bs.length) :
-    ∃ o, vecOp g bs ((cfgOf g).decLen bs) (.push x) = .ok o ∧ o.bytes.length = bs.length ∧
-      (o.ret = .full → (cfgOf g).decLen bs = g.cap ∧ o.bytes = bs) ∧
-      (o.ret = .ok → elems g o.bytes ((cfgOf g).decLen o.bytes) = elems g bs ((cfgOf g).decLen bs) ++ [x] ∧
-        (cfgOf g).decLen o.bytes = (cfgOf g).decLen bs + 1) ∧
-      (o.ret = .ok ∨ o.ret = .full) := by
-  obtain ⟨r, ok, h1, h2, h3, h4⟩ := push_refines (cfgOf g) g.cap bs x hd hx hcap hlen hroom
-  rw [vecOp_push_eq g bs x hx, h1]
-  cases ok with
-  | true =>
-    refine ⟨⟨.ok, r⟩, rfl, h2, ?_, ?_, Or.inl rfl⟩
-    · intro h; cases h
-    · intro _
-      obtain ⟨a, b⟩ := h4 rfl
-      exact ⟨by rw [elems_eq, elems_eq]; exact b, a⟩
-  | false =>
-    refine ⟨⟨.full, r⟩, rfl, h2, ?_, ?_, Or.inr rfl⟩
-    · intro _; exact h3 rfl
-    · intro h; cases h
-
-theorem vecOp_pop_eq (g : VecGeo) (bs : Bytes) :
-    vecOp g bs ((cfgOf g).decLen bs) .pop =
-      ((cfgOf g).pop bs).bind fun (r, o) => .ok ⟨match o with | some e => .some e | none => .none, r⟩ := by
-  simp only [vecOp, VecCfg.pop]
-  by_cases h : (cfgOf g).decLen bs = 0
-  · simp [h]
-  · simp only [h, if_false, VecGeo.setLen, cfgOf_encLen, Res.bind_eq, Res.pure_eq]
-    cases h2 : writeAt bs 0 (encLenTy g.l ((cfgOf g).decLen bs - 1)) <;> simp [VecGeo.elemAt, VecCfg.elem]
-
-/-- **C11 (pop).** `pop` never faults; on an empty vector it returns `None` and changes nothing; otherwise it returns exactly
-the last element, the abstract sequence loses exactly that element, and the length shrinks by one. -/
-theorem C11_pop_refines (g : VecGeo) (bs : Bytes) (hd : g.l.size ≤ g.dOff) (hsz : g.l.size ≤ bs.length)
-    (hlen : (cfgOf g).decLen bs < 256 ^ g.l.size) :
-    ∃ o, vecOp g bs ((cfgOf g).decLen bs) .pop = .ok o ∧ o.bytes.length = bs.length ∧
-      ((cfgOf g).decLen bs = 0 → o.ret = .none ∧ o.bytes = bs) ∧
-      (0 < (cfgOf g).decLen bs →
-        (∃ e, o.ret = .some e ∧ (elems g bs ((cfgOf g).decLen bs)).getLast? = some e) ∧
-        elems g o.bytes ((cfgOf g).decLen o.bytes) = (elems g bs ((cfgOf g).decLen bs)).dropLast ∧
-        (cfgOf g).decLen o.bytes = (cfgOf g).decLen bs - 1) := by
-  obtain ⟨r, o, h1, h2, h3, h4⟩ := pop_refines (cfgOf g) bs hd hsz hlen
-  rw [vecOp_pop_eq g bs, h1]
-  refine ⟨_, rfl, h2, ?_, ?_⟩
-  · intro h0; obtain ⟨a, b⟩ := h3 h0; subst a; exact ⟨rfl, b⟩
-  · intro hpos
-    obtain ⟨a, b, c⟩ := h4 hpos
-    refine ⟨?_, by rw [elems_eq, elems_eq]; exact b, c⟩
-    cases o with
-    | none =>
-      exfalso
-      have : (cfgOf g).elems bs ≠ [] := by
-        unfold VecCfg.elems; intro hh
-        have := congrArg List.length hh
-        simp at this; omega
-      rw [eq_comm, List.getLast?_eq_none_iff] at a
-      exact this a
-    | some e => exact ⟨e, rfl, by rw [elems_eq]; exact a.symm⟩
+/-- **C11 (tie to validity).** A slice that validates as `FlatVec<T, L>` satisfies the invariant with the geometry `ptr_from_bytes`
+derives from the slice length and with the length the length field holds. -/
+theorem C11_valid_gives_invariant (d : Dict) (sz : Nat) (hss : d.ssize = sz) (l : LenTy) (hl : l.Law) (s : Slice)
+    (hlen : max l.size d.align ≤ s.len) (hv : (vecD d l).validateU s = .ok ()) :
+    ∃ g len, vecGeo d l s.len = .ok g ∧ l.readU s = .ok len ∧ VInv g s.bytes len ∧ g.S = sz ∧ g.l = l :=
+  vinv_of_valid d sz hss l hl s hlen hv
 
 /-- non-vacuity: `FlatVec<u16, u16>` holding [1] in a 7-byte buffer (capacity 2): push 2 succeeds, push 3 is refused -/
 example : vecOp ⟨L16, 2, 2, 2⟩ [1,0, 1,0, 9,9, 9] 1 (.push [2,0]) = .ok ⟨.ok, [2,0, 1,0, 2,0, 9]⟩ := by decide
-example : (vecOp ⟨L16, 2, 2, 2⟩ [2,0, 1,0, 2,0, 9] 2 (.push [3,0])).NoFault := by decide
+example : vecOp ⟨L16, 2, 2, 2⟩ [2,0, 1,0, 2,0, 9] 2 (.remove 0) = .ok ⟨.elem [1,0], [1,0, 2,0, 2,0, 9]⟩ := by decide
+example : VInv ⟨L16, 2, 2, 2⟩ [1,0, 1,0, 9,9, 9] 1 := ⟨by decide, by decide, by decide, by decide, by decide⟩
 end FV.Props
